@@ -728,3 +728,93 @@ func TestGocvReplay(t *testing.T) {
 	}
 }
 `
+
+// ---------------------------------------------------------------------------
+// driver: (*eventBasedGateway).run$2 — the winner's transformer sends `true` to every loser on an unbuffered channel
+// (C06): a loser that has already taken its own action (its event arrived at the same time) no longer listens, the
+// winner blocks for ever and the instance never completes.
+
+func init() {
+	registerReplay(replayDriver{
+		modelFree: true,
+		name:      "bpmn event-based gateway: both events delivered at the same time",
+		match: func(ob *Oblig) bool {
+			return ob.Class == "blocking" && strings.HasPrefix(ob.Func, "bpmn.(*eventBasedGateway).run$2")
+		},
+		build: func(ob *Oblig, m map[string]string) (string, string, bool) {
+			return ".", "// generated by gocv for obligation " + ob.Name + "\n" + ebgConcurrentTest, true
+		},
+	})
+}
+
+const ebgConcurrentTest = `package bpmn
+
+import (
+	"context"
+	"encoding/xml"
+	"os"
+	"sync"
+	"testing"
+	"time"
+
+	"github.com/olive-io/bpmn/schema"
+	"github.com/olive-io/bpmn/v2/pkg/event"
+	"github.com/olive-io/bpmn/v2/pkg/tracing"
+)
+
+func TestGocvReplay(t *testing.T) {
+	src, err := os.ReadFile("testdata/event_based_gateway.bpmn")
+	if err != nil {
+		t.Fatal(err)
+	}
+	incomplete := 0
+	const runs = 12
+	for run := 0; run < runs; run++ {
+		var defs schema.Definitions
+		if err := xml.Unmarshal(src, &defs); err != nil {
+			t.Fatal(err)
+		}
+		proc, err := NewEngine().NewProcess(&defs)
+		if err != nil {
+			t.Fatal(err)
+		}
+		ctx, cancel := context.WithTimeout(context.Background(), time.Second)
+		traces := proc.Tracer().SubscribeChannel(make(chan tracing.ITrace, 128))
+		if err := proc.StartAll(ctx); err != nil {
+			t.Fatal(err)
+		}
+		listening := make(chan struct{}, 4)
+		go func() {
+			for tr := range traces {
+				switch tt := tracing.Unwrap(tr).(type) {
+				case ActiveListeningTrace:
+					listening <- struct{}{}
+				case TaskTrace:
+					tt.Do()
+				}
+			}
+		}()
+		for i := 0; i < 2; i++ {
+			select {
+			case <-listening:
+			case <-ctx.Done():
+				t.Fatal("the alternatives never started listening")
+			}
+		}
+		// both competing events at the same time, from different goroutines
+		var wg sync.WaitGroup
+		for _, ev := range []event.IEvent{event.NewSignalEvent("Sig1"), event.NewMessageEvent("Msg1", nil)} {
+			wg.Add(1)
+			go func(ev event.IEvent) { defer wg.Done(); proc.ConsumeEvent(ev) }(ev)
+		}
+		wg.Wait()
+		if !proc.WaitUntilComplete(ctx) {
+			incomplete++
+		}
+		cancel()
+	}
+	if incomplete > 0 {
+		t.Fatalf("%d of %d instances did not complete after both alternatives' events were delivered at the same time", incomplete, runs)
+	}
+}
+`
